@@ -21,6 +21,8 @@ YV = [1.3, 0.4, 0.7]
 WV = [0.35, -0.6, 0.15]
 N, P, T = 3, 3, 2
 # term growth beyond the size budget (deterministic): see the note emitted by the rule
+# datafits for which the coordinate kernels are also paired on the design with an empty column
+EMPTY_COLUMN_CASES = {"Quadratic", "Logistic", "Huber"}
 HEAVY_DIRECTION = {"Logistic", "WeightedQuadratic", "SqrtQuadratic"}
 
 
@@ -49,7 +51,8 @@ def world():
     return v
 
 
-def design():
+def design(PATTERN=None):
+    PATTERN = PATTERN or globals()["PATTERN"]
     X = Mat(Vec((sym(f"x{i}{j}") if PATTERN[i][j] else const(0)) for j in range(P)) for i in range(N))
     data, indices, indptr = Vec(), Vec(), Vec([0])
     for j in range(P):
@@ -205,10 +208,15 @@ def r_kernel_eq(A, ctx, scope, rule="R-KERNEL-EQ", select=None):
     ws = Vec([2, 0])
     l1 = _cls(prog.penalties, "L1")
 
-    def init(L, dobj, sparse, yv):
+    def init(L, dobj, sparse, yv, X=X, csc=csc):
         m = dobj.cls.find_method("initialize_sparse" if sparse else "initialize")
         if m is not None and m.cls.name not in ("BaseDatafit", "BaseMultitaskDatafit"):
             L.call_function(m, (list(csc) if sparse else [X]) + [yv], self_obj=dobj)
+
+    # second design: column 1 is empty (a feature absent from a fold); its coordinate constant is 0 and
+    # a warm start may carry a non-zero coefficient on it
+    X_e, csc_e = design(PATTERN_EMPTY)
+    ws_e = Vec([2, 1])
 
     # ---- single-task coordinate kernels ------------------------------------------
     cd_d = _func(A, "skglm.solvers.anderson_cd", "_cd_epoch")
@@ -245,8 +253,20 @@ def r_kernel_eq(A, ctx, scope, rule="R-KERNEL-EQ", select=None):
             Xw = Vec(sym(f"Xw{i}") for i in range(N))
             args = (list(csc) if sparse else [X]) + [y, w, Xw, dobj, ws]
             return args, (lambda: [])
+        def mk_cd_e(L, sparse, dcls=dcls):
+            dobj = make_obj(prog, dcls)
+            pobj = Obj(l1, {"alpha": sym("alpha"), "positive": False})
+            init(L, dobj, sparse, y, X_e, csc_e)
+            w = Vec(sym(f"w{j}") for j in range(P))
+            Xw = Vec(sym(f"Xw{i}") for i in range(N))
+            lc = Vec([sym("lc0"), const(0), sym("lc2")])
+            args = (list(csc_e) if sparse else [X_e]) + [y, w, Xw, lc, dobj, pobj, ws_e]
+            return args, (lambda: [w, Xw])
         if dcls.find_method("get_lipschitz") is not None or True:
             run(f"{dcls.name} x L1", cd_d, cd_s, mk_cd, loc(cd_s, cd_s.node))
+            if dcls.name in EMPTY_COLUMN_CASES:
+                run(f"{dcls.name} x L1, empty column with a non-zero coefficient", cd_d, cd_s, mk_cd_e,
+                    loc(cd_s, cd_s.node))
         run(f"{dcls.name}", cg_d, cg_s, mk_cg, loc(cg_s, cg_s.node))
     # ---- group kernels ---------------------------------------------------------------
     gb_d = _func(A, "skglm.solvers.group_bcd", "_bcd_epoch")
